@@ -57,6 +57,7 @@ BLOCKING = [r"\bMutex\b", r"\bRwLock\b", r"\bCondvar\b", r"\bBarrier\b", r"\bOnc
             r"\bcall_once\b", r"thread::sleep", r"\bpark(_timeout)?\s*\(", r"\bspin_loop\b", r"\byield_now\b", r"\bflock\b", r"\blockf\b", r"F_SETLKW?\b",
             r"\bJoinHandle\b", r"\.join\(\)", r"\bmpsc\b", r"\bSemaphore\b"]
 blocking = []
+loops = []
 errkinds = []
 for fn in sorted(os.listdir(os.path.join(REPO, "src"))):
     if not fn.endswith(".rs") or fn == "verif_hooks.rs":
@@ -84,11 +85,16 @@ for fn in sorted(os.listdir(os.path.join(REPO, "src"))):
     for pat in BLOCKING:
         for mm in re.finditer(pat, text):
             blocking.append("%s:%s" % (fn, mm.group(0).strip("( ")))
+    # unbounded loops (`loop {`, `while ... {`): each is a place where the code can wait or retry;
+    # the model accounts for exactly the ones listed in Gen/Agree.v (C06)
+    for mm in re.finditer(r"\b(loop)\s*\{|\b(while)\b[^{;]*\{", text):
+        loops.append("%s:%s" % (fn, mm.group(1) or mm.group(2)))
     # which error kinds / errnos the library proper looks at, file by file: the model's error
     # handling (is_absent, the retry and the tolerated-failure sites) is pinned to exactly these
     for mm in re.finditer(r"\b(?:ErrorKind::|libc::E)([A-Za-z]+)", text):
         errkinds.append("%s:%s" % (fn, mm.group(0).replace("ErrorKind::", "").replace("libc::", "")))
 blocking = sorted(set(blocking))
+loops = sorted(loops)
 errkinds = sorted(set(errkinds))
 pfx, width, upper = None, None, None
 if fmt is not None:
@@ -127,11 +133,13 @@ Definition SEPARATOR_REJECTED : bool := %s.
 Definition REDUCE_SHIFT : N := %s.
 (* blocking constructs found in the library proper (file:token) *)
 Definition BLOCKING_PRIMITIVES : list string := [%s].
+(* unbounded loops (loop / while) found in the library proper (file:keyword), with multiplicity *)
+Definition UNBOUNDED_LOOPS : list string := [%s].
 (* error kinds and errnos the library proper inspects (file:kind) *)
 Definition ERROR_KINDS_INSPECTED : list string := [%s].
 """ % (vals["PLAIN_MAINTENANCE_SCALE"], vals["SHARDED_MAINTENANCE_SCALE"], vals["DELTA_SEC"], vals["MAX_TEMP_FILE_AGE_SEC"],
        coq_string(prim), coq_string(sec), coq_string(pfx), width, "true" if upper else "false", coq_string(temp),
-       "; ".join(str(b) for b in reserved), "true" if empty_rejected else "false", "true" if sep_rejected else "false", shift, "; ".join(coq_string(b) for b in blocking), "; ".join(coq_string(b) for b in errkinds))
+       "; ".join(str(b) for b in reserved), "true" if empty_rejected else "false", "true" if sep_rejected else "false", shift, "; ".join(coq_string(b) for b in blocking), "; ".join(coq_string(b) for b in loops), "; ".join(coq_string(b) for b in errkinds))
     rc = 0
 old = open(OUT).read() if os.path.exists(OUT) else None
 if old != body:
